@@ -1258,3 +1258,21 @@ def _exact_len(m, c):
     if isinstance(it, ListIt):
         return it.remaining()
     return len(drain(m, it.clone()))
+
+
+@model("iter::zip", "zip")
+def _free_zip(m, c):
+    return ZipIt(into_it(m, c.args[0]), into_it(m, c.args[1]))
+
+
+@model("iter::once", "once")
+def _once(m, c):
+    return ListIt([c.args[0]])
+
+
+@model("iter::repeat", "repeat")
+def _repeat(m, c):
+    class Rep(It):
+        def next(self, m2):
+            return c.args[0]
+    return Rep()
